@@ -320,3 +320,24 @@ func Uniform(t *rapid.T, n int, label string) int {
 	}
 	return rapid.IntRange(0, n-1).Draw(t, label)
 }
+
+// RelLockLostItsCoin: the transaction has an enabled BIP68 lock on an input whose
+// coin was confirmed before the reorganisation and is now unconfirmed or
+// confirmed at another height.
+func RelLockLostItsCoin(tx *wire.MsgTx, before, after ce.UtxoSet) bool {
+	if uint32(tx.Version) < 2 {
+		return false
+	}
+	for _, ti := range tx.TxIn {
+		if ti.Sequence&(1<<31) != 0 {
+			continue
+		}
+		old, okOld := before[ti.PreviousOutPoint]
+		now, okNow := after[ti.PreviousOutPoint]
+		if okOld && (!okNow || now.Height != old.Height) {
+			return true
+		}
+	}
+	return false
+}
+
